@@ -136,7 +136,9 @@ func c16Gate(r *rng, id string) {
 	if enc {
 		key = mkKey(r, 16)
 	}
-	snd, err := newCnode(ccfg{label: gateLabels[si], key: key, verifyIn: true, verifyOut: true})
+	// the sender may delegate its own inbound check too: that must not change what it sends
+	sskip := r.chance(1, 3)
+	snd, err := newCnode(ccfg{label: gateLabels[si], key: key, verifyIn: true, verifyOut: true, skipIn: sskip})
 	if err != nil {
 		return
 	}
@@ -186,8 +188,8 @@ func c16Gate(r *rng, id string) {
 			replied = 1
 		}
 	}()
-	emit("C16 gate id=%s s=%d r=%d same=%d slen=%d rlen=%d skip=%d enc=%d path=%s acted=%d replied=%d panic=%d",
-		id, si, ri, b2i(gateLabels[si] == gateLabels[ri]), len(gateLabels[si]), len(gateLabels[ri]), b2i(skip), b2i(enc), path, acted, replied, pan)
+	emit("C16 gate id=%s s=%d r=%d same=%d slen=%d rlen=%d skip=%d sskip=%d enc=%d path=%s acted=%d replied=%d panic=%d",
+		id, si, ri, b2i(gateLabels[si] == gateLabels[ri]), len(gateLabels[si]), len(gateLabels[ri]), b2i(skip), b2i(sskip), b2i(enc), path, acted, replied, pan)
 }
 
 func TestC16(t *testing.T) {
